@@ -640,6 +640,7 @@ def setup(run):
 SHAPES = [(), (3,), (2, 2), (1, 4)]
 FIELDS = ["real", "complex", "imaginary-chart", "integer"]
 SCALARS = ["positive", "negative", "complex-unit", "complex", "tiny", "huge"]
+EXTREME_SCALARS = ["1e-17", "1e-25", "1e-200", "1e+150"]
 
 
 def _lib_exc_from(e, funcname):
@@ -659,6 +660,11 @@ def rand_scalars(rng, shape, kind):
         return mag * np.exp(1j * rng.uniform(0, 2 * np.pi, size=shape))
     if kind == "tiny":
         return mag * 1e-8 * rng.choice([-1.0, 1.0], size=shape)
+    if kind in EXTREME_SCALARS:
+        s = mag * float(kind) * rng.choice([-1.0, 1.0], size=shape)
+        if kind == "1e-25":
+            s = s * np.exp(1j * rng.uniform(0, 2 * np.pi, size=shape))
+        return s
     return mag * 1e8 * rng.choice([-1.0, 1.0], size=shape)
 
 
@@ -678,6 +684,11 @@ def wl_charts(run, rng, idx):
     field = FIELDS[(idx // 5) % 4]
     shape = SHAPES[(idx // 20) % 4]
     skind = SCALARS[(idx // 80) % 6]
+    if idx % 4 == 3:
+        # "any non-zero rescaling": scalars far below machine epsilon and far above
+        # 1/eps (seeded change C16-r3-1: chart membership decided by
+        # |coordinate| < eps instead of == 0)
+        skind = EXTREME_SCALARS[(idx // 4) % len(EXTREME_SCALARS)]
     if field == "integer" and skind.startswith("complex"):
         skind = "negative"
     for c in range(d + 1):
